@@ -339,3 +339,18 @@ def innermost_repo_frame(exc):
 def exc_signature(exc):
     fr = innermost_repo_frame(exc)
     return "%s@%s:%s" % (type(exc).__name__, fr[1], fr[0])
+
+
+def get_protocol(config, line, rest=b"", tls=False):
+    """ProtocolMultiplexer.getProtocol on a first line (bytes, as readline() returns it) with `rest`
+    still unread on the connection.  Returns the protocol object (or None); exceptions propagate."""
+    from pygopherd.protocols import ProtocolMultiplexer
+    init_mimetypes_once(config)
+    logger.log = lambda m: None
+    server = ServerStub(config)
+    rfile = io.BytesIO(rest)
+    wfile = MemWFile()
+    req = (MockSSLRequest if tls else MockRequest)(rfile, wfile)
+    h = Handler(req, CLIENT, server)
+    return ProtocolMultiplexer.getProtocol(
+        line.decode(errors="surrogateescape"), server, h, h.rfile, h.wfile, config)
